@@ -4,7 +4,7 @@
 (* process with a write-ahead record per call (an abort is attributed to   *)
 (* its input: o = "abort").                                                *)
 (*  Ctor   {kind, via, name, pat_tokens, file_ok, ref_alist_ok, ref_enc_ok,*)
-(*          null}                                                          *)
+(*          null, cut}                                                     *)
 (*  Decode {f32, out_len, limit, ref:{verdict, word, iters}, ret, out}     *)
 (*  Encode {bits, ref, out}                                                *)
 (***************************************************************************)
@@ -13,7 +13,8 @@ EXTENDS TraceKit, CApi
 VARIABLES l
 vars == <<l>>
 
-CtorOK(ev) == ev.o = "ok" /\ ev.null = ExpectNull(ev.kind, ev.file_ok, ev.ref_alist_ok, ev.name, ev.pat_tokens, ev.tail_inv)   \* tail_inv: the harness's own elimination (oracle)
+CtorOK(ev) == /\ ev.o = "ok" /\ ev.null = ExpectNull(ev.kind, ev.file_ok, ev.ref_alist_ok, ev.name, ev.pat_tokens, ev.tail_inv)   \* tail_inv: the harness's own elimination (oracle)
+              /\ (ev.cut => ev.null)     \* a text that ends before the last declared column list is malformed whatever the Rust parser says
 DecodeOK(ev) == ev.o = "ok" /\ DecodeRel(ev.ret, ev.out, ev.out_len, ev.ref)
 \* the codeword the C encoder must write, computed by the specification (Encoder.tla + Chain.tla) from the matrix, the bytes and the
 \* pattern - small matrices only (hrows non-empty); bytes other than 0/1 are judged against a fresh handle (independence of calls)
